@@ -18,7 +18,10 @@ package sigagg
 //@ ensures r1 == nil ==> a.verifyFunc(ctx, pubkey, r0) == nil
 //@ ensures r1 == nil ==> len(parSigs) >= a.threshold
 //@ ensures r1 == nil ==> ncalls(tbls.ThresholdAggregate) == 1 && ncalls(fullSig.SetSignature) == 1
+// Nothing is published for a call whose partials repeat a share (F-C09: a repeated index used to overwrite silently).
+//@ ensures r1 == nil ==> forall(k, 0, len(parSigs), forall(l, k+1, len(parSigs), parSigs[k].ShareIdx != parSigs[l].ShareIdx))
 //@ canary r1 != nil
+//@ loop 1 invariant repeated || forall(k, 0, $i, forall(l, k+1, $i, parSigs[k].ShareIdx != parSigs[l].ShareIdx))
 //@ loop 1 invariant forallk(i, blsSigs, exists(k, 0, $i, parSigs[k].ShareIdx == i && res(1, tblsconv.SigFromCore(parSigs[k].Signature())) == nil && blsSigs[i] == res(0, tblsconv.SigFromCore(parSigs[k].Signature()))))
 //@ loop 1 invariant forall(k, 0, $i, has(blsSigs, parSigs[k].ShareIdx))
 //@ loop 1 invariant ncalls(tbls.ThresholdAggregate) == 0 && ncalls(fullSig.SetSignature) == 0
